@@ -15,6 +15,7 @@ DEFECTS = {
     "bit_empty": "asn1_bit_string_from_der_ex refuses the empty BIT STRING 03 01 00 that asn1_bit_string_to_der_ex produces (len < 2)",
     "utf8": "asn1_utf8char_from_bytes tests `(in[i] & 0x60) != 0x80`, which is always true: every multi-byte UTF-8 character is refused",
     "hex_odd": "hex2bin/hex_to_bytes print the length-delimited input with %s when the length is odd: read past the end of the buffer (no NUL)",
+    "b64_ws": "base64_decode_block evaluates conv_ascii2bin(*f) before testing n > 0: an all-white-space (or empty) input is read one byte past its end",
     "multiple": "several of the listed defects at once",
 }
 
@@ -74,8 +75,10 @@ def mutate(r, b, n=1):
     return bytes(b)
 
 
-def compare(ctx, cases, impl, model, variant, impl_err=""):
-    """cases: [(line, cell)].  Returns number of disagreements."""
+def compare(ctx, cases, impl, model, variant, impl_err="", out_of_scope=()):
+    """cases: [(line, cell)].  Returns number of disagreements.
+    out_of_scope: defect names that do not concern the calling property when neither side faults
+    (C06 leaves the value-level defects to C14); they are counted, not reported."""
     nbad = 0
     for i, (line, cell) in enumerate(cases):
         ctx.cov["evaluations"] += 1
@@ -105,6 +108,9 @@ def compare(ctx, cases, impl, model, variant, impl_err=""):
                 break
         if key is None and alts.get("asis") == an:
             key = "defect:multiple"
+        if key is not None and key.split(":", 1)[1] in out_of_scope and an != "FAULT" and expected != "FAULT":
+            ctx.count("value-defect-left-to-C14:" + key.split(":", 1)[1])
+            continue
         if key is not None:
             text = "%s [%s]: op `%s` impl=%s, required=%s" % (DEFECTS[key.split(":", 1)[1]], variant, line[:160], a[:80], expected[:80])
         else:
